@@ -349,6 +349,61 @@ def viewCheckOutput (vkDepth : Nat) (vkChild : ChildNumber) (pubMatches : Ident 
       | .regular => .err
       | .none => if pubMatches id sw then .some id sw else .none
 
+/-! ### view keys below the root (`ViewKey::create(keychain, ext_key, hasher, is_floo)`)
+
+A view key need not be the root: `ext_key` may be any privately derived child `m/vk[0]/…/vk[d-1]`
+(`master.derive_priv(vk)`), hardened words included. `ExtendedPubKey::from_private` copies
+`depth = d` and `child_number = vk[d-1]` (`Normal 0` for the master, `new_master`). The loop of
+`check_output` then derives *publicly* (`ckd_pub`) along the words `d..depth` of the identifier in the
+message — possible for normal words only — and compares public keys. -/
+
+/-- the words `derive_key` walks: the first `depth` of the four components -/
+def Ident.words (id : Ident) : List ChildNumber := id.toPath.comps.take id.toPath.depth
+
+/-- `ViewKey.child_number` of the view key made from the private key at path `vk` -/
+def vkChildNumber (vk : List ChildNumber) : ChildNumber := (vk[vk.length - 1]?).getD (.normal 0)
+
+/-- **Path algebra.** The identifiers a view key at (depth `vk.length`, path prefix `vk`) covers:
+identifiers of depth ≥ d (and ≤ 4) whose first d words equal `vk` and whose words d..depth are all
+normal (< 2^31). -/
+def viewCovers (vk : List ChildNumber) (id : Ident) : Bool :=
+  decide (id.toPath.depth ≤ 4) && decide (vk.length ≤ id.toPath.depth) &&
+    (id.words.take vk.length == vk) && !(id.words.drop vk.length).any ChildNumber.isHardened
+
+/-- The final comparison of `check_output` for the view key at `vk` of keychain `kd`:
+`commit.to_pubkey() == key.commit(amount, None)` where `key` is the view key moved along the
+remaining words of `id` by `ckd_pub`. BIP32 contract (sampled by the harness, not modelled): public
+derivation along normal words yields the public key of the private derivation along the same
+words, so `key` is the public key of `m/vk/rest`; equality of public keys = equality of openings
+(Pedersen binding, DESIGN §2.3). A failing `ckd_pub` (probability ~2^-127, an `Err` in the code) is
+folded into "no match". -/
+def viewPubMatches {K : Type} (kd : KeyDeriv K) (vk : List ChildNumber) (c : Opening) (amount : Nat)
+    (id : Ident) (_sw : Switch) : Bool :=
+  match ckdAll kd kd.master (vk ++ id.words.drop vk.length) with
+  | some k => decide (c = ⟨amount, kd.secret k⟩)
+  | Option.none => false
+
+/-- `impl ProofBuild for ViewKey :: check_output` for the view key created from the private key at
+`m/vk` of keychain `kd` -/
+def viewCheckAt {K : Type} (kd : KeyDeriv K) (vk : List ChildNumber) (c : Opening) (amount : Nat)
+    (msg : Bytes) : Check :=
+  viewCheckOutput vk.length (vkChildNumber vk) (viewPubMatches kd vk c amount) amount msg
+
+/-! ### instance history
+
+`ExtKeychain::derive_key(&self, ..)` clones the hasher and the master key and walks the path on the
+copies; nothing of the instance is written. The model of "a keychain instance that has answered the
+queries `before`" is therefore the same `KeyDeriv`, and a sequence of derivations is a `map`. That
+the real instance (and its clones) behaves like that — no cache keyed by the 16 path bytes, no
+hasher state carried from one call to the next — is what the `history` run of the harness samples. -/
+
+/-- one call of `derive_key(amount, id, switch)` -/
+abbrev Query := Nat × Ident × Switch
+
+/-- the answers of one keychain instance to a sequence of `derive_key` calls, in order -/
+def deriveSeq {K : Type} (kd : KeyDeriv K) (qs : List Query) : List (Res Nat) :=
+  qs.map fun q => deriveKey kd q.1 q.2.1 q.2.2
+
 /-! ### the free key derivation
 
 `derive_key` reads only `depth` and the first `depth` components, so two identifiers that agree on
@@ -420,6 +475,14 @@ def newBuilder {K : Type} (kd : KeyDeriv K) (rn pn : Opening → Nat) : Builder 
 /-- `LegacyProofBuilder::new(keychain)`: one nonce for both purposes -/
 def legacyBuilder {K : Type} (kd : KeyDeriv K) (rn : Opening → Nat) : Builder :=
   ⟨rn, rn, legacyProofMessage, legacyCheckOutput (commit kd)⟩
+
+/-- A `ViewKey` (made from the private key at `m/vk`) handed to `proof::rewind` as the builder. Its
+    `rewind_nonce` is `blake2b(commit, rewind_hash)` with `rewind_hash = blake2b(public_root_key)` —
+    the same value `ProofBuilder::new(keychain)` uses, whatever the depth of the view key — so `rn` is
+    shared with the creating builder. `private_nonce` / `proof_message` are `unimplemented!()` in the
+    code and never called by `rewind`; the fields are placeholders. -/
+def viewBuilder {K : Type} (kd : KeyDeriv K) (vk : List ChildNumber) (rn : Opening → Nat) : Builder :=
+  ⟨rn, fun _ => 0, proofMessage, viewCheckAt kd vk⟩
 
 /-! ## 7. Transaction builder at the level of openings -/
 
